@@ -1,5 +1,6 @@
 """C06 — validation results are deterministic under every thread schedule and count."""
 import itertools, os, re, time
+import numpy as np
 import vf
 
 IMPORTS = """From Coq Require Import ZArith List Floats Uint63.
@@ -96,12 +97,19 @@ def run(ck, rng, tier):
         for nth in (1, 2, 4):
             lines.append("boot %d %s %s 3 4 %d %d" % (algo, vf.fmt_mat(X), vf.fmt_mat(Y), nth, 3 if not thorough else 8))
             meta.append(("boot", algo, nth))
+    # --- y-scrambling (bootstrap and leave-one-out validation inside): thread counts dividing the rounds
+    for algo in (4, 0):
+        for vtype, rounds, nths in ((1, 6, (1, 2, 3, 6)), (0, 4, (1, 2, 4))):
+            for nth in nths:
+                lines.append("yscr %d %s %s %d %d %d" % (algo, vf.fmt_mat(X), vf.fmt_mat(Y), vtype, rounds, nth))
+                meta.append(("yscr", algo, (vtype, rounds), nth))
     rc, outs, err = vf.run_driver(exe, "\n".join(lines) + "\n", timeout=1200)
     if rc != 0 or len(outs) != len(meta):
         ck.broken("driver drv_c06", "rc=%s cases=%d/%d %s" % (rc, len(outs), len(meta), err[-800:]))
         return
     checks = vf.Checks()
     bootres = {}
+    yscr = {}
     for i, (mt, o) in enumerate(zip(meta, outs)):
         if mt[0] == "rng":
             _, seed, n, low, high = mt
@@ -134,6 +142,10 @@ def run(ck, rng, tier):
                             "random_kfold_group_generator (seed %d) returned different groups when another worker drew concurrently" % mt[1][k],
                             {"seeds": mt[1], "nobj": mt[2], "groups": mt[3], "worker": k})
                     break
+        elif mt[0] == "yscr":
+            _, algo, cfg, nth = mt
+            ck.case(mt)
+            yscr.setdefault((algo, cfg), {})[nth] = o["cc"]
         else:
             _, algo, nth = mt
             ck.case(mt)
@@ -141,6 +153,12 @@ def run(ck, rng, tier):
             if any(p != preds[0] for p in preds):
                 ck.fail("BootstrapRandomGroupsCV", "run_to_run_nondeterminism", "repeated runs with %d threads differ" % nth, {"algo": algo, "threads": nth})
             bootres.setdefault(algo, {})[nth] = preds[0]
+    for (algo, cfg), byth in yscr.items():
+        base = np.array(byth.get(1))
+        for nth, p in byth.items():
+            p = np.array(p)
+            if p.shape != base.shape or not np.allclose(p, base, rtol=1e-9, atol=1e-12, equal_nan=True):
+                ck.fail("YScrambling", "thread_count_dependence", "y-scrambling (%s validation, %d rounds) with %d threads differs from the sequential run by %.3g" % ("bootstrap" if cfg[0] == 1 else "leave-one-out", cfg[1], nth, np.nanmax(np.abs(p - base)) if p.shape == base.shape else float("nan")), {"algo": algo, "threads": nth, "validation": cfg})
     for algo, byth in bootres.items():
         base = byth.get(1)
         for nth, p in byth.items():
